@@ -206,6 +206,13 @@ func (s *c19Subscriber) Send(v interface{}) error {
 	s.h.log = append(s.h.log, fmt.Sprintf("send:%d:%s", s.label, toJSON(world.Canon(v))))
 	fails := s.kind == 3 || (s.kind == 1 && s.deliveries == 1) || (s.kind == 2 && s.deliveries == 2)
 	if fails {
+		// a plain error, a group, a wrapped group - in turn: a failed delivery is a failed delivery
+		switch s.label % 3 {
+		case 1:
+			return ggql.Errors{fmt.Errorf("subscriber %d fails", s.label), fmt.Errorf("and again")}
+		case 2:
+			return fmt.Errorf("while sending: %w", ggql.Errors{fmt.Errorf("subscriber %d fails", s.label)})
+		}
 		return fmt.Errorf("subscriber %d fails", s.label)
 	}
 	return nil
@@ -239,7 +246,8 @@ func (e *c19EvRes) Resolve(field *ggql.Field, args map[string]interface{}) (inte
 	return e.e[field.Name], nil
 }
 
-const c19SDL = "type Query { i: Int }\ntype Subscription { ev(id: String): Ev }\ntype Ev { name: String n: Int }\n"
+// (count and evs are used by C20 / the list part of C19: a scalar-typed and a list-typed subscription field)
+const c19SDL = "type Query { i: Int }\ntype Subscription { ev(id: String): Ev count(id: String): Int evs(id: String): [Ev] }\ntype Ev { name: String n: Int }\n"
 
 func newC19H(reflectEvents bool) *c19H {
 	h := &c19H{reflectE: reflectEvents, exes: map[string]*ggql.Executable{}}
